@@ -54,7 +54,7 @@ func rulesSamWriter(c *Ctx, r *Report) {
 		r.undecided("SAM-COL", where, "struct layout", c.pos(w.Pos()), "SAM's fields are "+strings.Join(decl, ",")+": the column table of this rule no longer applies")
 		return
 	}
-	s := newSymb(w)
+	_ = newSymb
 	rpo := rpoIndex(w)
 	calls := fmtCallsIn(w)
 	sort.SliceStable(calls, func(i, j int) bool { return rpo[calls[i].site.Block()] < rpo[calls[j].site.Block()] })
@@ -68,7 +68,7 @@ func rulesSamWriter(c *Ctx, r *Report) {
 	verbs := strings.Split(*first.format, "\t")
 	okVerbs := len(verbs) == 11 && len(first.args) == 11
 	for k, a := range first.args {
-		nm := recvFieldName(w, s.expr(a))
+		nm := recvFieldName(w, first.sy.expr(a))
 		wcols[k] = nm
 		if k < len(verbs) {
 			isStr := false
@@ -309,12 +309,8 @@ func rulesSamParser(c *Ctx, r *Report) {
 func parseIntsPairsUp(c *Ctx, f *ssa.Function) bool {
 	s := newSymb(f)
 	ok := false
-	instrs(f, func(in ssa.Instruction) {
-		st, isSt := in.(*ssa.Store)
-		if !isSt {
-			return
-		}
-		a, v := s.expr(st.Addr), s.expr(st.Val)
+	for _, ss := range symStoresOf(f, s) {
+		a, v := ss.addr, ss.val
 		// addr: load(P1[I]) ; val: extract:0(call:strconv.Atoi(load(P0[I])))
 		if a.Op == "load" && a.Args[0].Op == "index" && a.Args[0].Args[0].String() == "P1" {
 			i := a.Args[0].Args[1].String()
@@ -323,7 +319,7 @@ func parseIntsPairsUp(c *Ctx, f *ssa.Function) bool {
 				ok = true
 			}
 		}
-	})
+	}
 	return ok
 }
 
@@ -600,12 +596,26 @@ func rulesMapOrderFn(c *Ctx, r *Report, f *ssa.Function, what string) {
 		})
 		if sortCall != nil {
 			sorted = true
-			// every return reachable from the loop must be dominated by the sort
-			instrs(f, func(in2 ssa.Instruction) {
-				if rt, ok := in2.(*ssa.Return); ok && (rt.Block() == rg.Block() || blockReaches(rg.Block(), rt.Block())) && !instrDominates(sortCall, rt) {
+			// every path from the loop to a return passes the sort
+			seen := map[*ssa.BasicBlock]bool{}
+			var walk func(b *ssa.BasicBlock)
+			walk = func(b *ssa.BasicBlock) {
+				if seen[b] || (b == sortCall.Block() && b != rg.Block()) {
+					return
+				}
+				seen[b] = true
+				if _, ok := lastInstr(b).(*ssa.Return); ok {
 					escapedUnsorted = true
 				}
-			})
+				for _, su := range b.Succs {
+					walk(su)
+				}
+			}
+			if sortCall.Block() == rg.Block() {
+				escapedUnsorted = true
+			} else {
+				walk(rg.Block())
+			}
 		}
 		// what is sorted is what is returned
 		if sortCall != nil && !escapedUnsorted {
@@ -618,10 +628,22 @@ func rulesMapOrderFn(c *Ctx, r *Report, f *ssa.Function, what string) {
 			okSame := true
 			retExpr := ""
 			instrs(f, func(in2 ssa.Instruction) {
-				if rt, ok := in2.(*ssa.Return); ok && len(rt.Results) >= 1 && instrDominates(sortCall, rt) {
-					retExpr = sy.expr(rt.Results[0]).String()
-					if rt.Results[0] != arg && retExpr != sortedExpr {
-						okSame = false
+				if rt, ok := in2.(*ssa.Return); ok && len(rt.Results) >= 1 && (instrDominates(sortCall, rt) || blockReaches(sortCall.Block(), rt.Block())) {
+					// a result variable that is nil on the paths around the loop: every other edge is the sorted list
+					vals := []ssa.Value{rt.Results[0]}
+					if phi, isPhi := rt.Results[0].(*ssa.Phi); isPhi && !instrDominates(sortCall, rt) {
+						vals = nil
+						for _, e := range phi.Edges {
+							if !isNilConst(e) {
+								vals = append(vals, e)
+							}
+						}
+					}
+					for _, v := range vals {
+						retExpr = sy.expr(v).String()
+						if v != arg && retExpr != sortedExpr {
+							okSame = false
+						}
 					}
 				}
 			})
